@@ -276,6 +276,9 @@ def run_property(P, tier, seed, replay=None):
             return 1
         f = P.oracle(case)
         print(json.dumps({'case': case, 'oracle': f}, indent=1, default=repr))
+        if f is not None and any(k.get('signature') == f.get('signature') for k in known):
+            print(f'KNOWN-FINDING: property={pid} ' + next(k['what'] for k in known if k.get('signature') == f.get('signature')))
+            return 0
         if f is not None:
             print(f'VIOLATION property={pid} replay={replay}')
             return 1
@@ -417,7 +420,14 @@ def run_property(P, tier, seed, replay=None):
             case = f0['case']
             if hasattr(P, 'shrink'):
                 try:
-                    case = P.shrink(case, lambda cc: P.oracle(cc) is not None)
+                    sig0 = (f0['failure'] or {}).get('signature')
+
+                    def same_failure(cc):
+                        # shrink towards the SAME failure: a smaller input that fails for another reason (in particular a
+                        # listed known finding) is not a replay of this violation
+                        g = P.oracle(cc)
+                        return g is not None and g.get('signature') == sig0
+                    case = P.shrink(case, same_failure)
                 except Exception:
                     pass
             try:
